@@ -480,3 +480,261 @@ family_mut!(chk_mut_c09, G_C09);
 family_mut!(chk_mut_c13, G_C13);
 family_mut!(chk_mut_c06, G_C06);
 family_mut!(chk_mut_c03, G_C03);
+
+// ------------------------------------------------------------------------------------------------
+// C03 with the GENERATOR as oracle: the expected content of a generated file is given as a trace of
+// (kind, offset, width) tokens by lib/gen_files.py; values are read from the (possibly symbolic) file bytes
+// at those offsets. Independent of the reference reader.
+// ------------------------------------------------------------------------------------------------
+struct Tr<'a> {
+    t: &'a [u8],
+    i: usize,
+    f: &'a [u8],
+    ok: bool,
+}
+
+impl<'a> Tr<'a> {
+    fn byte(&mut self) -> u8 {
+        if self.i < self.t.len() {
+            self.i += 1;
+            self.t[self.i - 1]
+        } else {
+            self.ok = false;
+            0xEE
+        }
+    }
+    fn off(&mut self) -> usize {
+        let lo = self.byte() as usize;
+        lo | ((self.byte() as usize) << 8)
+    }
+    fn tag(&mut self, want: u8) {
+        if self.byte() != want {
+            self.ok = false;
+        }
+    }
+    fn slice(&mut self, off: usize, len: usize) -> &'a [u8] {
+        if off + len <= self.f.len() {
+            &self.f[off..off + len]
+        } else {
+            self.ok = false;
+            &self.f[0..0]
+        }
+    }
+    fn bytes(&mut self, got: &[u8]) {
+        self.tag(0x01);
+        let off = self.off();
+        let len = self.off();
+        if self.slice(off, len) != got {
+            self.ok = false;
+        }
+    }
+    fn opt_bytes(&mut self, got: Option<&[u8]>) {
+        match got {
+            None => self.tag(0x02),
+            Some(g) => self.bytes(g),
+        }
+    }
+    /// unsigned token: returns (width, value)
+    fn uint_tok(&mut self, tag: u8) -> (usize, u64) {
+        self.tag(tag);
+        let off = self.off();
+        let w = self.byte() as usize;
+        let mut v = 0u64;
+        for b in self.slice(off, w) {
+            v = (v << 8) | *b as u64;
+        }
+        (w, v)
+    }
+    fn uint(&mut self, got: u64) {
+        let (_, v) = self.uint_tok(0x03);
+        if v != got {
+            self.ok = false;
+        }
+    }
+    fn opt_time(&mut self, got: Option<u32>) {
+        match got {
+            None => self.tag(0x02),
+            Some(g) => {
+                let (_, v) = self.uint_tok(0x05);
+                if v != g as u64 {
+                    self.ok = false;
+                }
+            }
+        }
+    }
+    fn sint_tok(&mut self) -> (usize, i64) {
+        self.tag(0x04);
+        let off = self.off();
+        let w = self.byte() as usize;
+        let s = self.slice(off, w);
+        let mut v: u64 = if !s.is_empty() && s[0] & 0x80 != 0 { u64::MAX } else { 0 };
+        for b in s {
+            v = (v << 8) | *b as u64;
+        }
+        (w, v as i64)
+    }
+}
+
+fn class_of(w: usize) -> u8 {
+    if w == 1 {
+        1
+    } else if w == 2 {
+        2
+    } else if w <= 4 {
+        4
+    } else {
+        8
+    }
+}
+
+fn walk(msgs: &[RMessage], tr: &mut Tr) {
+    for m in msgs {
+        tr.tag(0xA0);
+        tr.bytes(m.transaction_id);
+        tr.uint(m.group_no as u64);
+        tr.uint(m.abort_on_error as u64);
+        match &m.body {
+            RBody::Open { codepage, client_id, req_file_id, server_id, ref_time, sml_version } => {
+                tr.tag(0xB1);
+                tr.opt_bytes(*codepage);
+                tr.opt_bytes(*client_id);
+                tr.bytes(req_file_id);
+                tr.bytes(server_id);
+                tr.opt_time(*ref_time);
+                match sml_version {
+                    None => tr.tag(0x02),
+                    Some(v) => tr.uint(*v as u64),
+                }
+            }
+            RBody::Close { signature } => {
+                tr.tag(0xB2);
+                tr.opt_bytes(*signature);
+            }
+            RBody::GetList { client_id, server_id, list_name, act_sensor_time, vals, signature, act_gateway_time } => {
+                tr.tag(0xB3);
+                tr.opt_bytes(*client_id);
+                tr.bytes(server_id);
+                tr.opt_bytes(*list_name);
+                tr.opt_time(*act_sensor_time);
+                tr.tag(0x07);
+                if tr.byte() as usize != vals.len() {
+                    tr.ok = false;
+                }
+                for e in vals {
+                    tr.tag(0xC0);
+                    tr.bytes(e.obj_name);
+                    match e.status {
+                        None => tr.tag(0x02),
+                        Some((c, v)) => {
+                            let (w, x) = tr.uint_tok(0x03);
+                            if class_of(w) != c || x != v {
+                                tr.ok = false;
+                            }
+                        }
+                    }
+                    tr.opt_time(e.val_time);
+                    match e.unit {
+                        None => tr.tag(0x02),
+                        Some(v) => tr.uint(v as u64),
+                    }
+                    match e.scaler {
+                        None => tr.tag(0x02),
+                        Some(v) => {
+                            let (_, x) = tr.sint_tok();
+                            if x != v as i64 {
+                                tr.ok = false;
+                            }
+                        }
+                    }
+                    match &e.value {
+                        RValue::Bool(b) => {
+                            tr.tag(0x10);
+                            tr.tag(0x06);
+                            let off = tr.off();
+                            if (tr.slice(off, 1)[0] != 0) != *b {
+                                tr.ok = false;
+                            }
+                        }
+                        RValue::Bytes(b) => {
+                            tr.tag(0x11);
+                            tr.bytes(b);
+                        }
+                        RValue::Int(c, v) => {
+                            tr.tag(0x12);
+                            let (w, x) = tr.sint_tok();
+                            if class_of(w) != *c || x != *v {
+                                tr.ok = false;
+                            }
+                        }
+                        RValue::Uint(c, v) => {
+                            tr.tag(0x13);
+                            let (w, x) = tr.uint_tok(0x03);
+                            if class_of(w) != *c || x != *v {
+                                tr.ok = false;
+                            }
+                        }
+                        RValue::ListTime(t) => {
+                            tr.tag(0x14);
+                            tr.opt_time(Some(*t));
+                        }
+                    }
+                    tr.opt_bytes(e.signature);
+                }
+                tr.opt_bytes(*signature);
+                tr.opt_time(*act_gateway_time);
+            }
+        }
+    }
+    tr.tag(0xFF);
+}
+
+/// Input: [k][k x (start u16, crc_at u16)][tlen u16][trace][file]. Checksums are recomputed, then BOTH parsers must return
+/// exactly the content the generator's trace describes.
+#[no_mangle]
+pub extern "C" fn chk_gen_c03(p: *const u8, n: usize) -> u32 {
+    let raw = unsafe { input(p, n) };
+    if raw.is_empty() {
+        return 0;
+    }
+    let k = raw[0] as usize;
+    let h0 = 1 + 4 * k;
+    if raw.len() < h0 + 2 {
+        return 0;
+    }
+    let mut fix = Vec::with_capacity(k);
+    let mut i = 0;
+    while i < k {
+        let o = 1 + 4 * i;
+        fix.push(((raw[o] as usize) | ((raw[o + 1] as usize) << 8), (raw[o + 2] as usize) | ((raw[o + 3] as usize) << 8)));
+        i += 1;
+    }
+    let tlen = raw[h0] as usize | ((raw[h0 + 1] as usize) << 8);
+    let trace = &raw[h0 + 2..h0 + 2 + tlen];
+    let mut buf = raw[h0 + 2 + tlen..].to_vec();
+    fix_crcs(&mut buf, &fix);
+    // allocating parser
+    match complete::parse(&buf) {
+        Ok(f) => {
+            let msgs = conv_file(&f);
+            let mut tr = Tr { t: trace, i: 0, f: &buf, ok: true };
+            walk(&msgs, &mut tr);
+            if !tr.ok {
+                fail(311);
+            }
+        }
+        Err(_) => fail(312),
+    }
+    // streaming parser
+    let s = run_stream(&buf);
+    if s.err.is_some() || s.open_list || !s.protocol_ok {
+        fail(313);
+    } else {
+        let mut tr = Tr { t: trace, i: 0, f: &buf, ok: true };
+        walk(&s.msgs, &mut tr);
+        if !tr.ok {
+            fail(314);
+        }
+    }
+    cover(31);
+    buf.len() as u32
+}
